@@ -327,7 +327,22 @@ func (m *modAnalysis) build(pkgs []*pkgInfo) {
 		for _, f := range p.files {
 			for _, d := range f.Decls {
 				fd, ok := d.(*ast.FuncDecl)
-				if !ok || fd.Body == nil {
+				if ok && fd.Body == nil {
+					// implemented in assembly: by the repository's convention
+					// the first pointer parameter is the output, the others
+					// are only read
+					if fn, _ := p.info.Defs[fd.Name].(*types.Func); fn != nil {
+						sig := fn.Type().(*types.Signature)
+						for i := 0; i < sig.Params().Len(); i++ {
+							if pointerLike(sig.Params().At(i).Type()) {
+								m.writes[paramKey{fn, i}] = true
+								break
+							}
+						}
+					}
+					continue
+				}
+				if !ok {
 					continue
 				}
 				fn, _ := p.info.Defs[fd.Name].(*types.Func)
